@@ -17,7 +17,7 @@ ASSUMPTIONS = ["differences below 1e-12 are never generated, so the unspecified 
 FLOORS = {'quick': {'reflexive': 300, 'symmetric': 300, 'copy-equal': 300, 'rebuilt-equal': 300, 'differs': 250,
                     'ne-consistent': 600},
           'thorough': {'differs': 2500}}
-MANDATORY_TAGS = ['mut:coord', 'mut:weight', 'mut:knot', 'mut:degree', 'mut:size', 'mut:rational', 'mut:pdim', 'mut:none', 'mut:hom_w',
+MANDATORY_TAGS = ['mut:coord', 'mut:weight', 'mut:knot', 'mut:degree', 'mut:size', 'mut:rational', 'mut:pdim', 'mut:none', 'mut:hom_w', 'via-copy',
                   'pdim1', 'pdim2', 'pdim3']
 TECHNIQUE = "runtime monitoring: metamorphic oracle on == / != of live shape objects over generated one-component mutations"
 LEVEL_TEXT = ("Each generated pair is compared in both directions with == and != and against the known difference between the "
@@ -137,6 +137,47 @@ def check(case, ctx):
     else:
         ctx.check(ab is False and ba is False, 'differs/%s' % {'knot_unnorm': 'knot', 'knot_dir0': 'knot', 'coord_last': 'coord', 'hom_w': 'weight'}.get(mut, mut),
                   'shapes differing in one %s compare equal' % mut, what='differs')
+    # ---- the same difference produced by editing a DEEP COPY through the public setters (copy, edit, compare) -------------------
+    if mut in ('coord', 'coord_last', 'weight', 'degree', 'knot', 'knot_unnorm', 'knot_dir0') and bsd['pdim'] == sd['pdim'] and \
+            bsd['sizes'] == sd['sizes']:
+        ctx.tag('via-copy')
+        c = copy.deepcopy(a)
+        pdim = sd['pdim']
+        if mut == 'degree':
+            if pdim == 1:
+                c.degree = bsd['degrees'][0]
+            else:
+                for d_, nm in enumerate(('degree_u', 'degree_v', 'degree_w')[:pdim]):
+                    if bsd['degrees'][d_] != sd['degrees'][d_]:
+                        setattr(c, nm, bsd['degrees'][d_])
+            cpw = G.ctrlptsw_of(bsd)
+            if pdim == 1:
+                c.set_ctrlpts(cpw)
+                c.knotvector = list(bsd['kvs'][0])
+            else:
+                c.set_ctrlpts(cpw, *bsd['sizes'])
+                for d_, nm in enumerate(('knotvector_u', 'knotvector_v', 'knotvector_w')[:pdim]):
+                    setattr(c, nm, list(bsd['kvs'][d_]))
+        elif mut.startswith('knot'):
+            for d_, nm in enumerate(('knotvector_u', 'knotvector_v', 'knotvector_w')[:pdim]):
+                if bsd['kvs'][d_] != sd['kvs'][d_]:
+                    setattr(c, 'knotvector' if pdim == 1 else nm, list(bsd['kvs'][d_]))
+        elif sd['rational']:
+            # populated rational shape: unweighted points first, then the weights (two public setters in a row)
+            c.ctrlpts
+            c.ctrlpts = [list(p) for p in bsd['ctrlpts']]
+            c.weights = list(bsd['weights'])
+        else:
+            c.ctrlpts = [list(p) for p in bsd['ctrlpts']]
+        ca, ac = (c == a), (a == c)
+        ctx.check(ca is False and ac is False, 'differs-after-editing-copy/%s' % {'knot_unnorm': 'knot', 'knot_dir0': 'knot', 'coord_last': 'coord'}.get(mut, mut),
+                  'a deep copy edited through the public setters (%s) still compares equal to its source' % mut, what='differs')
+        # (rational shapes: P*w/w*w' differs from P*w' by an ulp and the comparison tolerance is 1e-18, so only exact paths are judged)
+        if not sd['rational'] or mut in ('degree',) or mut.startswith('knot'):
+            ctx.check((c == b) is True, 'edited-copy-not-equal-to-rebuilt/%s' % mut, 'a deep copy edited to the partner definition does not equal the '
+                      'independently built partner', what='rebuilt-equal')
+        ctx.check((a == G.build(sd)) is True, 'source-changed-by-editing-copy', 'editing a deep copy changed what its source compares equal to',
+                  what='rebuilt-equal')
     # evaluation state must not influence equality
     a3 = G.build(sd)
     a3.sample_size = 3
